@@ -778,62 +778,10 @@ Qed.
 Lemma error_passes_level : forall r lv, r_level r = Error -> (rank lv <= rank (r_level r))%nat.
 Proof. intros r lv H. rewrite H. destruct lv; simpl; lia. Qed.
 
-Lemma manifests_produced : forall p c r, manifests p c r ->
-  In r (produced p) /\ ~ located_only_in_included (p_user p) r.
-Proof.
-  intros p c r [He H]. unfold produced, located_only_in_included.
-  destruct c; simpl in H.
-  1-4: destruct H as [Hin Hnil]; split; [apply in_or_app; auto | intros [Hne _]; contradiction].
-  1-3: destruct H as [Hin [f [Hf Hu]]]; split; [apply in_or_app; auto | intros [_ Hall]; exact (Hall f Hf Hu)].
-  1-2: destruct H as [d [Hd [Herr Hloc]]]; split;
-    [ apply in_or_app; right; apply in_flat_map; exists d; split; auto;
-      unfold produced_def; rewrite Herr; apply in_or_app; right; left; reflexivity
-    | destruct Hloc as [Hnil | [f [Hf Hu]]]; [intros [Hne _]; contradiction | intros [_ Hall]; exact (Hall f Hf Hu)] ].
-Qed.
-
-Theorem failure_classes_reported : forall p o order c r,
-  wf_project p -> analysis_order p order ->
-  manifests p c r -> ~ In (r_id r) (o_allow o) ->
-  In r (res_shown (run_keys p o order)) /\ r_level r = Error /\ res_exit (run_keys p o order) = 1%Z.
-Proof.
-  intros p o order c r Hwf Hord Hm Hal.
-  pose proof Hm as [He _]. destruct (manifests_produced p c r Hm) as [Hin Hloc].
-  assert (Hs : In r (res_shown (run_keys p o order))).
-  { apply displayed_iff_kept; auto. split; auto. split. apply error_passes_level; auto. split; auto. }
-  split; auto. split; auto.
-  destruct (exit_zero_iff_nothing_displayed p o order Hwf Hord) as [Hz [H0 | H1]]; auto.
-  apply Hz in H0. rewrite H0 in Hs. contradiction.
-Qed.
-
-Theorem clean_only_if_all_analysed : forall p o order,
-  wf_project p -> analysis_order p order ->
-  res_exit (run_keys p o order) = 0%Z ->
-  (forall r, In r (produced p) -> ~ keep o (p_user p) r) /\
-  (forall d, In d (user_defs p) -> In (d_key d) order) /\
-  (o_allow o = [] ->
-     (forall r, In r (p_parse p) -> r_level r = Error -> located_only_in_included (p_user p) r) /\
-     (forall d e, In d (user_defs p) -> d_err d = Some e -> r_level e = Error -> located_only_in_included (p_user p) e)).
-Proof.
-  intros p o order Hwf Hord Hex.
-  destruct (exit_zero_iff_nothing_displayed p o order Hwf Hord) as [Hz _]. apply Hz in Hex.
-  assert (H1 : forall r, In r (produced p) -> ~ keep o (p_user p) r).
-  { intros r Hin Hk. assert (In r (res_shown (run_keys p o order))) by (apply displayed_iff_kept; auto).
-    rewrite Hex in H. contradiction. }
-  split; auto. split.
-  - intros d Hd. eapply Permutation_in. apply Permutation_sym. exact Hord. apply in_map. assumption.
-  - intros Hal.
-    assert (Hgen : forall r, In r (produced p) -> r_level r = Error -> located_only_in_included (p_user p) r).
-    { intros r Hin He. specialize (H1 r Hin). unfold keep in H1. rewrite Hal in H1.
-      destruct (r_pfiles r) as [|f fs] eqn:Ef.
-      - exfalso. apply H1. split. apply error_passes_level; auto. split. intros []. intros [Hne _]. congruence.
-      - unfold located_only_in_included. rewrite Ef. split. discriminate.
-        intros x Hx Hu. apply H1. split. apply error_passes_level; auto. split. intros [].
-        intros [_ Hall]. rewrite Ef in Hall. exact (Hall x Hx Hu). }
-    split.
-    + intros r Hin. apply Hgen. unfold produced. apply in_or_app. auto.
-    + intros d e Hd Herr. apply Hgen. unfold produced. apply in_or_app. right. apply in_flat_map. exists d. split; auto.
-      unfold produced_def. rewrite Herr. apply in_or_app. right. left. reflexivity.
-Qed.
+(* The C02 theorems about this model (an error-level report that is produced
+   and not located solely in included files is displayed; exit 0 only if ...)
+   are in Proofs.NoSilentProofs, where the presence of the report is derived
+   from Model.Includes through Model.Front. *)
 
 (* ====================================================================== *)
 (* C17                                                                      *)
